@@ -258,10 +258,10 @@ def first_fails(fails):
 
 GEN = {
     # pid: (constants of ManagerGen, MaxLen, regress tags)
-    "C06": ({"TagNames": '{"tag/a", "tag/b", "mark/m"}', "ConvNames": "{}", "MaxCalls": 7, "MaxViews": 1, "Menu": '"tags"', "Invalid": "FALSE"}, 44),
-    "C09": ({"TagNames": '{"tag/a", "tag/b", "mark/m"}', "ConvNames": "{}", "MaxCalls": 6, "MaxViews": 1, "Menu": '"tags"', "Invalid": "FALSE"}, 40),
+    "C06": ({"TagNames": '{"tag/a", "tag/b", "mark/m"}', "ConvNames": "{}", "MaxCalls": 7, "MaxViews": 1, "Menu": '"tagsb"', "Invalid": "FALSE"}, 44),
+    "C09": ({"TagNames": '{"tag/a", "tag/b", "mark/m"}', "ConvNames": "{}", "MaxCalls": 6, "MaxViews": 1, "Menu": '"tagsb"', "Invalid": "FALSE"}, 40),
     "C10": ({"TagNames": '{"tag/a"}', "ConvNames": "{}", "MaxCalls": 7, "MaxViews": 3, "Menu": '"files"', "Invalid": "FALSE"}, 40),
-    "C11": ({"TagNames": '{"tag/a", "tag/b", "mark/m"}', "ConvNames": "{}", "MaxCalls": 12, "MaxViews": 0, "Menu": '"tags"', "Invalid": "TRUE", "Extra": '{"rename", "color"}'}, 34),
+    "C11": ({"TagNames": '{"tag/a", "tag/b", "mark/m"}', "ConvNames": "{}", "MaxCalls": 12, "MaxViews": 0, "Menu": '"tagsb"', "Invalid": "TRUE", "Extra": '{"rename", "color"}'}, 34),
     "C13": ({"TagNames": '{"tag/a"}', "ConvNames": "{}", "MaxCalls": 8, "MaxViews": 3, "Menu": '"files"', "Invalid": "FALSE"}, 40),
     "C12": ({"TagNames": '{"tag/a", "tag/b", "mark/m"}', "ConvNames": '{"cv"}', "MaxCalls": 12, "MaxViews": 1, "Menu": '"conv"', "Invalid": "FALSE", "Crashes": "TRUE",
              "Restarts": "TRUE", "Extra": '{"rename", "color", "settings"}'}, 50),
@@ -279,6 +279,9 @@ MC = {
              ["NeverStale", "GraphWellFormed"]),
             ("marks", {"TagNames": '{"tag/a", "mark/m"}', "ConvNames": "{}", "MaxCalls": 3, "MaxViews": 0, "Menu": '"tags"', "Invalid": "FALSE"},
              ["NeverStale", "GraphWellFormed"]),
+            # byte-count filters: a stream that a later capture continues changes its counts
+            ("bytes", {"TagNames": '{"tag/a"}', "ConvNames": "{}", "MaxCalls": 3, "MaxViews": 0, "Menu": '"bytes"', "Invalid": "FALSE"},
+             ["NeverStale", "NeverStuck", "FlagsMatchJobs"]),
             # payload filters also search the cached converter output: tags that matched output which is dropped later (detach,
             # reset, executable removed) must be evaluated again
             ("conv-payload", {"TagNames": '{"tag/a", "tag/b"}', "ConvNames": '{"cv"}', "MaxCalls": 3, "MaxViews": 0, "Menu": '"conv"', "Invalid": "FALSE",
